@@ -104,6 +104,17 @@ def run(ctx):
         cfg['detect_min_iri'] = rng.random() < 0.8
         cfg['examples'] = rng.choice([None, 'shape', 'cons', 'all'])
         cfg['th'] = (0, 1) if rng.random() < 0.7 else cfg['th']
+        if rng.random() < 0.5:
+            # the namespaces of the instances / values bound to prefixes that change from case to case (one process runs them all): the same
+            # namespace under another prefix, the same prefix for another namespace - an example must be read with the PREFIX lines of its own document
+            used = sorted({ns for t in g for x in (t[0], t[2]) if x[0] == 'I' for ns in NAMESPACES if x[1].startswith(ns) and ns[-1] in '/#'})
+            rng.shuffle(used)
+            nsd = dict(cfg['ns_dict'])
+            for k_, ns in enumerate(used[:rng.randint(1, 3)]):
+                if ns not in nsd:
+                    nsd[ns] = rng.choice(['d', 'dat', 'n%d' % k_, 'v'])
+            if len(set(nsd.values())) == len(nsd):
+                cfg['ns_dict'] = nsd
         cases.append((g, cfg))
     ir = pipeline.run_impl(cases)
     viol, dis = [], []
